@@ -81,7 +81,14 @@ def main():
             if cfg.get("own_tracker"):      # a tracker supplied by the caller (the way recorders are attached)
                 from geneticengine.evaluation.tracker import SingleObjectiveProgressTracker
                 kw["tracker"] = SingleObjectiveProgressTracker(problem)
-            if alg == "GP":
+            if alg == "SGP":        # the repository's simple API, seeded through its own `seed` argument
+                from geml.simplegp import SimpleGP
+                sg = SimpleGP(ff, g, minimize=bool(cfg.get("minimize", False)), max_depth=d, max_time=10 ** 9,
+                              max_evaluations=cfg["evals"], seed=cfg["seed"], population_size=cfg.get("pop", 8),
+                              elitism=1, novelty=1, mutation_probability=0.5, crossover_probability=0.5)
+                problem = sg.problem
+                a = sg
+            elif alg == "GP":
                 if cfg.get("step") == "xo":  # a step in which crossover fires often (the default step uses 0.01)
                     from geneticengine.algorithms.gp.operators.combinators import SequenceStep
                     from geneticengine.algorithms.gp.operators.crossover import GenericCrossoverStep
